@@ -30,7 +30,7 @@ ELEMS_T = ELEMS_Q + ['"b"', "2", "1.5", 'frozenset({"a", 1})', "(2,)"]
 
 def bounds(tier):
     return {"elements": len(ELEMS_Q if tier == "quick" else ELEMS_T), "max_size": 3 if tier == "quick" else "4 (size 4: four insertion orders, display / incremental / frozenset only)",
-            "seeds": "0..5 with black, 0..2 without black / with format-command" if tier == "quick" else "0..15 with black, 0..7 without black / with format-command", "formatters": ["black", "noblack", "cmd"]}
+            "seeds": "0..5 with black, 0..2 without black / with format-command" if tier == "quick" else "0..7 with black, 0..3 without black / with format-command", "formatters": ["black", "noblack", "cmd"]}
 
 
 def _sites(tier):
@@ -105,13 +105,15 @@ def _file(sites):
 
 
 def build(tier, seed):
-    seeds = list(range(8 if tier == "quick" else 16))
+    # thorough: 8 hash seeds with black, 4 without / with a format-command over the 42k-site universe (16 tasks of 14 cold
+    # processes each: one round on 16 cores; 16 / 8 / 8 seeds did not finish in 3.3 h on a loaded machine)
+    seeds = list(range(8))
     tasks = []
     for fmt in ("black", "noblack", "cmd"):
         for hs in seeds:
             if tier == "quick" and (hs >= 6 or (fmt != "black" and hs >= 3)):
                 continue
-            if tier != "quick" and fmt != "black" and hs >= 8:
+            if tier != "quick" and fmt != "black" and hs >= 4:
                 continue
             tasks.append({"fmt": fmt, "hs": hs, "tier": tier})
     return tasks
